@@ -293,4 +293,64 @@ theorem C16_complete_guard_in_source :
       ["if !hash.Equal(&m.currentHash) return", "if m.currentIsComplete return", "m.currentIsComplete = true",
        "close(m.currentComplete)"] := by decide
 
+/-- what the models of the download machinery take for granted about mutual exclusion and signalling: the mutex
+    and channel operations of every function involved (downloader, manager, the node side of a block request), with
+    the control structure and returns around them, in source order. -/
+def expectedSyncTraces : List (String × List String) := [
+  ("BlockDownloader.Run", ["case{", "comm <-interrupt", "return", "}", "case{", "comm <-bd.Started",
+      "bd.stateLock.Lock", "bd.stateLock.Unlock", "}", "case{", "comm <-time.After(2 * time.Minute)", "return",
+      "}", "case{", "comm err := <-bd.Complete", "bd.stateLock.Lock", "bd.stateLock.Unlock", "return", "}",
+      "case{", "comm <-interrupt", "return", "}", "case{", "comm <-time.After(time.Hour)", "return", "}", "case{",
+      "comm err := <-bd.Complete", "bd.stateLock.Lock", "bd.stateLock.Unlock", "return", "}"]),
+  ("BlockDownloader.cancelAndWaitForComplete", ["for{", "case{", "comm <-time.After(time.Second * 10)", "if{",
+      "return", "}", "}", "case{", "comm err := <-bd.Complete", "bd.stateLock.Lock", "bd.stateLock.Unlock",
+      "return", "}", "}"]),
+  ("BlockDownloader.Stop", ["bd.stateLock.Lock", "if{", "bd.stateLock.Unlock", "return", "}",
+      "bd.stateLock.Unlock", "if{", "send bd.Started", "send bd.Complete", "}"]),
+  ("BlockDownloader.Cancel", ["bd.stateLock.Lock", "if{", "bd.stateLock.Unlock", "return", "}",
+      "bd.stateLock.Unlock", "if{", "send bd.Started", "}", "if{", "send bd.Complete", "}"]),
+  ("BlockDownloader.wasCancelled", ["bd.stateLock.Lock", "bd.stateLock.Unlock", "return"]),
+  ("BlockDownloader.HandleBlock", ["send bd.Started", "if{", "send bd.Complete", "return", "}", "if{",
+      "send bd.Complete", "return", "}", "send bd.Complete", "return"]),
+  ("BlockDownloader.handleBlock", ["for{", "if{", "return", "}", "if{", "return", "}", "}", "if{", "return", "}",
+      "if{", "return", "}", "if{", "return", "}", "for{", "if{", "return", "}", "}", "if{", "return", "}", "if{",
+      "return", "}", "for{", "if{", "return", "}", "}", "if{", "return", "}", "return"]),
+  ("BlockManager.AddRequest", ["m.requestLock.Lock", "if{", "m.requestLock.Unlock", "return", "}",
+      "send m.requests", "m.requestLock.Unlock", "return"]),
+  ("BlockManager.Stop", ["m.downloaderLock.Lock", "m.downloaderLock.Unlock"]),
+  ("BlockManager.shutdown", ["for{", "m.downloaderLock.Lock", "m.downloaderLock.Unlock", "if{", "return", "}",
+      "}"]),
+  ("BlockManager.processRequest", ["m.currentLock.Lock", "m.currentLock.Unlock", "for{", "case{",
+      "comm <-time.After(m.blockRequestDelay)", "if{", "return", "}", "}", "case{", "comm <-interrupt", "return",
+      "}", "case{", "comm <-request.abort", "send request.complete", "return", "}", "case{",
+      "comm <-m.currentComplete", "close request.complete", "return", "}", "}"]),
+  ("BlockManager.cancelDownloaders", ["m.downloaderLock.Lock", "m.downloaderLock.Unlock"]),
+  ("BlockManager.requestBlock", ["if{", "return", "}", "m.downloaderLock.Lock", "m.downloaderLock.Unlock",
+      "return"]),
+  ("BlockManager.removeDownloader", ["m.downloaderLock.Lock", "for{", "if{", "m.downloaderLock.Unlock", "return",
+      "}", "}", "m.downloaderLock.Unlock"]),
+  ("BlockManager.markBlockRequestComplete", ["m.currentLock.Lock", "defer m.currentLock.Unlock", "if{", "return",
+      "}", "if{", "return", "}", "close m.currentComplete"]),
+  ("BitcoinNode.RequestBlock", ["n.Lock", "if{", "n.Unlock", "return", "}", "n.Unlock", "if{", "return", "}",
+      "n.Lock", "n.Unlock", "return"]),
+  ("BitcoinNode.CancelBlockRequest", ["n.Lock", "defer n.Unlock", "if{", "return", "}", "if{", "return", "}",
+      "if{", "if{", "return", "}", "return", "}", "return"]),
+  ("BitcoinNode.handleBlock", ["if{", "return", "}", "n.Lock", "if{", "n.Unlock", "return", "}", "if{", "n.Unlock",
+      "return", "}", "if{", "n.Unlock", "return", "}", "n.Unlock", "if{", "return", "}", "n.Lock", "if{",
+      "n.Unlock", "return", "}", "n.Unlock", "defer{", "close txChannel", "}", "for{", "case{",
+      "comm <-n.interrupt", "return", "}", "case{", "}", "if{", "return", "}", "send txChannel", "}", "return"]),
+  ("BitcoinNode.completeBlock", ["n.Lock", "n.Unlock"]),
+  ("BitcoinNode.IsBusy", ["n.Lock", "defer n.Unlock", "return"]),
+  ("BitcoinNode.Stop", []),
+  ("BitcoinNode.closeConnection", ["n.connectionLock.Lock", "n.connectionLock.Unlock"])
+]
+
+/-- **C16 (the locking and signalling discipline the models assume is the one in the source).** The small-step
+    models take one critical section, one channel send, one receive as a step; interleavings below call
+    granularity are covered by the proofs only. `Facts.syncTraces` is regenerated from block_downloader.go,
+    block_manager.go, bitcoin_node.go and handlers.go on every run (`lockTrace` in go/cmd/extract): a lock released
+    earlier, a send added, moved or made unconditional, a `close` outside its guard breaks this theorem even when no
+    run of the harnesses hits the window. -/
+theorem C16_sync_traces_in_source : Facts.syncTraces = expectedSyncTraces := by decide
+
 end BRV.BlockMgr
